@@ -26,13 +26,13 @@ Print Assumptions C12_unique_arguments_order.
 (* NoUnusedVariables / NoUndefinedVariables: iteration over defined_variables (outer map) *)
 Theorem C12_unused_variables_order : forall d st defs', Permutation (vs_defined st) defs' ->
   Permutation (r_errors (nuv_finish d st))
-              (r_errors (nuv_finish d (mkVars (vs_scope st) defs' (vs_used st) (vs_spreads st)))).
+              (r_errors (nuv_finish d (mkVars (vs_scope st) defs' (vs_seen st) (vs_used st) (vs_spreads st)))).
 Proof. exact nuv_finish_perm. Qed.
 Print Assumptions C12_unused_variables_order.
 
 Theorem C12_undefined_variables_order : forall d st defs', Permutation (vs_defined st) defs' ->
   Permutation (r_errors (nudv_finish d st))
-              (r_errors (nudv_finish d (mkVars (vs_scope st) defs' (vs_used st) (vs_spreads st)))).
+              (r_errors (nudv_finish d (mkVars (vs_scope st) defs' (vs_seen st) (vs_used st) (vs_spreads st)))).
 Proof. exact nudv_finish_perm. Qed.
 Print Assumptions C12_undefined_variables_order.
 
@@ -49,7 +49,7 @@ Print Assumptions C12_unused_fragments_order.
 Theorem C12_allowed_position_order : forall s d st spreads',
   spreads_permuted (vp_spreads st) spreads' ->
   List.length (vp_spreads st) < vars_fuel d ->
-  let st' := mkViap spreads' (vp_usages st) (vp_defs st) (vp_scope st) (vp_directive st)
+  let st' := mkViap spreads' (vp_usages st) (vp_defs st) (vp_scope st) (vp_seen st) (vp_directive st)
                     (vp_objects st) (vp_defaults st) in
   r_oof (viap_finish s d st) = false /\ r_oof (viap_finish s d st') = false /\
   Permutation (r_errors (viap_finish s d st)) (r_errors (viap_finish s d st')).
